@@ -25,7 +25,7 @@ def run(chk, program, tier):
                  ('FILTER-NORM', 'LOWER probe against lower-cased lists'), ('FILTER-TYPE', 'element types of the lists; probes of a type that cannot occur'),
                  ('FILTER-PRE', 'numeric decision before reassembly'), ('FILTER-PURE', 'no filter-dependent write into the message')):
         chk.rule(r, t)
-    res = F.filter_table(chk, program)
+    res = F.filter_table(chk, program, max_entries=3 if tier == 'thorough' else 2)
     if res is None:
         return
     consts, sf, cf, stages = res
